@@ -27,12 +27,13 @@ type c02cfg struct {
 	offer       bool // the in-flight request offers a protocol upgrade the target does not take
 	prior       bool // the old targets were drained before (pause cut off by its deadline, then resume); the replaced containers are stopped the moment the deploy returns
 	conflict    bool // the redeploy also claims a host owned by another service and is rejected after its targets became healthy: the old set keeps serving
+	stream      bool // the in-flight request's response has started (headers sent) and its body completes 1.5s into the drain; the service's target timeout is 1s
 	subTLS      bool // the service lives on a sub-path of a host whose root-path service has TLS on; the clients use HTTPS
 	lateProbe   bool // probe timeout > probe interval; the new targets' first probe hangs, later ones succeed; clients arrive on a time grid
 }
 
 func (c c02cfg) String() string {
-	return fmt.Sprintf("old=%d new=%d clients=%dx%d inflight=%v redeploys=%d changeHosts=%v other=%v slow=%v offer=%v lateProbe=%v conflict=%v prior=%v", c.nOld, c.nNew, c.clients, c.perClient, c.inflight, c.redeploys, c.changeHosts, c.other, c.slow, c.offer, c.lateProbe, c.conflict, c.prior) + map[bool]string{true: " subTLS=true"}[c.subTLS]
+	return fmt.Sprintf("old=%d new=%d clients=%dx%d inflight=%v redeploys=%d changeHosts=%v other=%v slow=%v offer=%v lateProbe=%v conflict=%v prior=%v", c.nOld, c.nNew, c.clients, c.perClient, c.inflight, c.redeploys, c.changeHosts, c.other, c.slow, c.offer, c.lateProbe, c.conflict, c.prior) + map[bool]string{true: " subTLS=true"}[c.subTLS] + map[bool]string{true: " streaming-inflight target-timeout=1s"}[c.stream]
 }
 
 func tnames(prefix string, n int) []string {
@@ -80,7 +81,11 @@ func c02Scenario(c c02cfg) *Scenario {
 			}
 			paths, reqPath, reqTLS = []string{"/api"}, "/api/x", true
 		}
-		if r := w.Deploy(deployArgs("s1", olds, hosts, paths)); r.Err != nil {
+		d0 := deployArgs("s1", olds, hosts, paths)
+		if c.stream {
+			d0.TargetOptions.ResponseTimeout = time.Second
+		}
+		if r := w.Deploy(d0); r.Err != nil {
 			w.Note("setup deploy failed: %v", r.Err)
 			return
 		}
@@ -109,6 +114,9 @@ func c02Scenario(c c02cfg) *Scenario {
 			vsched.GoTagged("client", func() {
 				defer wg.Done()
 				spec := ReqSpec{ID: "inflight", Host: "a.example.com", Path: reqPath, TLS: reqTLS, Plan: "delay=1s"}
+				if c.stream {
+					spec.Plan = "stream=1600ms"
+				}
 				if c.offer {
 					spec.Header = [][2]string{{"Connection", "Upgrade, HTTP2-Settings"}, {"Upgrade", "h2c"}, {"HTTP2-Settings", "AAMAAABkAARAAAAAAAIAAAAA"}}
 				}
@@ -133,6 +141,9 @@ func c02Scenario(c c02cfg) *Scenario {
 			defer wg.Done()
 			for g := 0; g < c.redeploys; g++ {
 				a := deployArgs("s1", gens[g], hosts, paths)
+				if c.stream {
+					a.TargetOptions.ResponseTimeout = time.Second
+				}
 				if c.lateProbe {
 					// as with the defaults (5s/1s) the probe timeout exceeds the interval
 					a.TargetOptions.HealthCheckConfig.Timeout = 2*vI + vI/2
@@ -286,6 +297,7 @@ func c02Configs(tier string) []c02cfg {
 		cfgs = append(cfgs, c02cfg{nOld: 1, nNew: 1, clients: 2, perClient: 1, redeploys: 1, inflight: true, other: true, conflict: true})
 		cfgs = append(cfgs, c02cfg{nOld: 1, nNew: 1, clients: 0, perClient: 0, redeploys: 1, inflight: true, prior: true})
 		cfgs = append(cfgs, c02cfg{nOld: 1, nNew: 1, clients: 2, perClient: 1, redeploys: 1, subTLS: true})
+		cfgs = append(cfgs, c02cfg{nOld: 1, nNew: 1, clients: 1, perClient: 1, redeploys: 1, inflight: true, stream: true})
 		return cfgs
 	}
 	for _, sh := range [][2]int{{1, 1}, {2, 1}, {1, 2}, {2, 2}} {
@@ -316,6 +328,9 @@ func c02Configs(tier string) []c02cfg {
 		for _, inf := range []bool{false, true} {
 			cfgs = append(cfgs, c02cfg{nOld: sh[0], nNew: sh[1], clients: 2, perClient: 1, redeploys: 1, inflight: inf, subTLS: true})
 		}
+	}
+	for _, sh := range [][2]int{{1, 1}, {2, 1}} {
+		cfgs = append(cfgs, c02cfg{nOld: sh[0], nNew: sh[1], clients: 2, perClient: 1, redeploys: 1, inflight: true, stream: true})
 	}
 	for _, ch := range []bool{false, true} {
 		for _, ot := range []bool{false, true} {
